@@ -5,6 +5,7 @@ from analysis import terms as T, k2
 from analysis.cfg import cfg_of
 from analysis.effects import subterms
 
+THOROUGH_CONFIGS = ['release', 'nobmi2', 'movegen-alone']
 LEVEL = "other"
 DECIDED = ("R1 Board::state is, exactly, the table (no legal move, in check) -> CheckMate; (no legal move, not in check) -> StaleMate; (moves, clock >= 100) -> StaleMate; "
            "(moves, in check, clock < 100) -> Check; otherwise Running, with the emptiness test taken on legals() of the same board and the threshold 100; "
